@@ -208,6 +208,9 @@ func (c *Ctx) Add(a, b *Term) *Term {
 	if a.IsConst() && b.IsConst() {
 		return c.Const(a.Val+b.Val, w)
 	}
+	if r := c.shlConcat(a, b); r != nil {
+		return r
+	}
 	if a.IsConst() {
 		a, b = b, a
 	}
@@ -350,10 +353,30 @@ func (c *Ctx) And(a, b *Term) *Term {
 	return c.bin(OpAnd, a, b)
 }
 
+// shlConcat recognises (zext(x) << k) op zext(y) with width(y) <= k (op = | or +) and builds zext(concat(x, y)).
+func (c *Ctx) shlConcat(a, b *Term) *Term {
+	if a.Op != OpShl || !a.Args[1].IsConst() {
+		a, b = b, a
+	}
+	if a.Op != OpShl || !a.Args[1].IsConst() || a.Args[0].Op != OpZExt || b.Op != OpZExt {
+		return nil
+	}
+	w := a.W()
+	k := int(a.Args[1].Val)
+	x, y := a.Args[0].Args[0], b.Args[0]
+	if y.W() > k || x.W()+k > w || x.W()+k > 64 {
+		return nil
+	}
+	return c.ZExt(c.Concat(x, c.ZExt(y, k)), w)
+}
+
 func (c *Ctx) Or(a, b *Term) *Term {
 	w := a.W()
 	if a.IsConst() && b.IsConst() {
 		return c.Const(a.Val|b.Val, w)
+	}
+	if r := c.shlConcat(a, b); r != nil {
+		return r
 	}
 	if a.IsConst() {
 		a, b = b, a
@@ -715,6 +738,18 @@ func (c *Ctx) Eq(a, b *Term) *Term {
 			return c.Eq(a.Args[0], c.Const(b.Val-a.Args[1].Val, a.W()))
 		}
 	}
+	// eq(ite(c, x, y), x) = c or eq(y, x)   (and symmetric variants)
+	for k := 0; k < 2; k++ {
+		if a.Op == OpIte {
+			if a.Args[1] == b {
+				return c.BOr(a.Args[0], c.Eq(a.Args[2], b))
+			}
+			if a.Args[2] == b {
+				return c.BOr(c.BNot(a.Args[0]), c.Eq(a.Args[1], b))
+			}
+		}
+		a, b = b, a
+	}
 	if a.ID > b.ID && !b.IsConst() {
 		a, b = b, a
 	}
@@ -860,6 +895,13 @@ func (c *Ctx) BOr(a, b *Term) *Term {
 		return a
 	}
 	if (a.Op == OpBNot && a.Args[0] == b) || (b.Op == OpBNot && b.Args[0] == a) {
+		return c.True
+	}
+	neg := func(x, y *Term) bool { return (x.Op == OpBNot && x.Args[0] == y) || (y.Op == OpBNot && y.Args[0] == x) }
+	if b.Op == OpBOr && (neg(a, b.Args[0]) || neg(a, b.Args[1])) {
+		return c.True
+	}
+	if a.Op == OpBOr && (neg(b, a.Args[0]) || neg(b, a.Args[1])) {
 		return c.True
 	}
 	return c.mk(&Term{Op: OpBOr, S: BoolSort, Args: []*Term{a, b}})
